@@ -9,7 +9,8 @@ from .c04 import ST_op
 PROPERTY = 'C13'
 LEVEL = 'fault_enumeration'
 RULE = ('every program of 1-3 activities, each [start delay 0/1/2] + 1-2 sequential transfers (volume 0/1/2/4, limit none/1/4) on a '
-        'Pipe of throughput 1/2/3/inf or an UnboundedPipe; fault-free and with one deviation: cancel at every activation boundary of '
+        'Pipe of throughput 1/2/3/inf or an UnboundedPipe (also with every magnitude scaled by 2**-34, and with transfers that are '
+        'children - one volatile - of an activity\'s own scope); fault-free and with one deviation: cancel at every activation boundary of '
         'every transferring activity, until-interrupt / forceful close swept over every queue position, abort of the whole scope (all running transfers closed together) at every time. Oracle: exact processor-sharing '
         'fluid model in rational arithmetic, fed with the observed start and abort times; every completed transfer must end at the '
         'model time (relative tolerance 1e-9); non-trivial = at least two transfers overlapped in time or a transfer was aborted '
@@ -107,17 +108,19 @@ def xfer_script(start, xfers):
     return s + [['PROBE', 'now']]
 
 
-PIPES = {'p1': ['Pipe', 1], 'p2': ['Pipe', 2], 'p3': ['Pipe', 3], 'pinf': ['Pipe', 'inf'], 'unb': ['UnboundedPipe']}
+TINY = 2.0 ** -34          # about 5.8e-11: the fluid model is scale free, volumes and rates may be of any magnitude
+PIPES = {'p1': ['Pipe', 1], 'p2': ['Pipe', 2], 'p3': ['Pipe', 3], 'pinf': ['Pipe', 'inf'], 'unb': ['UnboundedPipe'],
+         'p1t': ['Pipe', TINY], 'p2t': ['Pipe', 2 * TINY]}
 
 
-def program(pipe, scripts, other=False):
+def program(pipe, scripts, other=False, tiny=False):
     kids = [['DO', 'x%d' % (i + 1), s] for i, s in enumerate(scripts)]
     if other:
         # an unrelated pipe that is busy at the same time must not influence this one
         kids.append(['DO', 'y1', [['XFER', 'q', 8, None], ['PROBE', 'now']]])
         kids.append(['DO', 'y2', [['D', 1], ['XFER', 'q', 4, 2], ['PROBE', 'now']]])
     return {'objs': {'p': PIPES[pipe], 'q': ['Pipe', 2]}, '_nops': 40, '_pipe': pipe,
-            'roots': [['root', [['SCOPE', 's', kids], ['XFER', 'p', 2, None], ['PROBE', 'now']]]]}
+            'roots': [['root', [['SCOPE', 's', kids], ['XFER', 'p', 2 * (TINY if tiny else 1), None], ['PROBE', 'now']]]]}
 
 
 def BOUNDS(tier):
@@ -141,7 +144,7 @@ def cases(tier):
            xfer_script(2, [(2, 4)]), xfer_script(0, [(2, 4), (2, None)])] + (
            [xfer_script(0, [(0, 1)]), xfer_script(2, [(4, 1)]), xfer_script(1, [(4, None), (1, 1)]), xfer_script(0, [(1, 4)])] if thorough else [])
     out = []
-    pipes = list(PIPES)
+    pipes = [p_ for p_ in PIPES if not p_.endswith('t')]
     for pipe in pipes:
         small = pipe in ('pinf', 'unb')
         for s in scripts:
@@ -154,6 +157,23 @@ def cases(tier):
                 out.append(program(pipe, [a, b, c]))
         for a, b in itertools.product(ss[::3], ss[::5]):
             out.append(program(pipe, [a, b], other=True))
+    # the same programs with all volumes, limits and the throughput scaled by 2**-34: all times stay the same
+    def scaled(script):
+        return [([op[0], op[1], op[2] * TINY, (op[3] * TINY if op[3] is not None else None)] if op[0] == 'XFER' else op) for op in script]
+    for pipe in ('p1t', 'p2t'):
+        for a in scripts:
+            out.append(program(pipe, [scaled(a)], tiny=True))
+        for a, b in itertools.product(scripts[::2], scripts[::3]):
+            out.append(program(pipe, [scaled(a), scaled(b)], tiny=True))
+    # transfers that are the children (one of them volatile) of an activity's own scope: the owner is cancelled, interrupted
+    # or closed at every boundary, also while it waits for its children at the end of its block
+    for pipe in ('p1', 'p2'):
+        for g1 in ((4, None), (2, 1)):
+            for g2 in ((8, None), (4, 4)):
+                for tail in ([], [['D', 1]]):
+                    for other in (xfer_script(0, [(4, None)]), xfer_script(1, [(2, 4)])):
+                        inner = [['DO', 'g1', xfer_script(0, [g1])], ['DO', 'g2', xfer_script(0, [g2]), {'volatile': True}]] + tail
+                        out.append(program(pipe, [[['SCOPE', 'in', inner], ['PROBE', 'now']], other]))
     return out
 
 
